@@ -308,9 +308,9 @@ def gen_core(ctx):
     for _ in range(ctx.n(30, 600)):
         out.append(("single-profile", G.make_profile_instance(rng, nind=1, trios=()), False))
     for _ in range(ctx.n(3, 40)):
-        out.append(("trio-profile", G.make_profile_instance(rng, nind=3, trios=trio, min_cols=9, max_cols=11, max_reads=6,
-                                                            levels=(0, 1, 1, 2, 3), quals=nice["quals"], prior_mode="nice"),
-                    False))
+        out.append(("trio-profile", G.permute_individuals(rng, G.make_profile_instance(
+            rng, nind=3, trios=trio, min_cols=9, max_cols=11, max_reads=6, levels=(0, 1, 1, 2, 3), quals=nice["quals"],
+            prior_mode="nice")), False))
     return out
 
 
@@ -474,7 +474,10 @@ g.GenotypeVcfWriter.write_genotypes = write_genotypes
 args = json.load(sys.stdin)
 try:
     g.run_genotype(output="out.vcf", **args)
-    print(json.dumps({"vcf": open("out.vcf").read(), "rec": rec, "tables": tables}))
+    res = {"vcf": open("out.vcf").read(), "rec": rec, "tables": tables}
+    if args.get("prioroutput"):
+        res["prior_vcf"] = open(args["prioroutput"]).read()
+    print(json.dumps(res))
 except SystemExit as e:
     print(json.dumps({"exit": str(e)}))
 '''
@@ -506,116 +509,225 @@ def gt_index(gt):
 
 
 SUBSETS3 = [[0], [1], [2], [0, 1], [0, 2], [1, 2], [0, 1, 2]]
+NAME_POOL = ["zeta", "alpha", "s_1", "S-2", "NA12878", "x", "A", "a1", "a10", "a2", "child", "mother", "father", "kid.1",
+             "Zed", "m", "sampleB", "sample", "B0"]
 
 
 def cli_plan(ctx, n):
     """kinds of CLI runs, cycling so that the quick tier already contains: single sample, trio (all genotyped),
-    three unrelated samples with --sample selecting every position subset, four samples, a trio with an extra
-    unrelated VCF column before / after the family and --use-ped-samples, and --chromosome subsets."""
+    three unrelated samples with --sample selecting every position subset, four samples, a trio with extra
+    unrelated VCF columns before / after / inside the family with --use-ped-samples, the same without
+    --use-ped-samples (the extra sample is genotyped as a family of its own), a quartet (two children), and
+    --chromosome subsets."""
     base = [("single", {}), ("trio", {})]
     multi = [("multi3", {"subset": sub, "twochrom": i % 3 == 1}) for i, sub in enumerate(SUBSETS3)]
     multi.append(("multi4", {"twochrom": True}))
     ped = [("pedextra", {"extra_first": True, "twochrom": False}), ("pedextra", {"extra_first": False, "twochrom": True}),
-           ("pedextra", {"extra_first": True, "twochrom": True}), ("pedextra", {"extra_first": False, "twochrom": False})]
+           ("pedplus", {"extra_first": True, "twochrom": False}), ("quartet", {"twochrom": False}),
+           ("pedextra", {"extra_first": True, "twochrom": True}), ("pedextra", {"extra_first": False, "twochrom": False}),
+           ("pedplus", {"extra_first": False, "twochrom": True}), ("quartet", {"twochrom": False})]
     cycle = []
-    for i in range(max(len(multi), len(ped))):
-        cycle += [base[i % 2], multi[i % len(multi)]]
-        if i < len(ped):
-            cycle.append(ped[i])
+    for i in range(8):
+        cycle += [base[i % 2], multi[i], ped[i]]
     return [cycle[i % len(cycle)] for i in range(n)]
 
 
-def cli_cases(ctx, n):
+def cli_spec(rng, kind, opt):
+    """everything needed to (re-)execute one CLI case: scenario, reads, file layout, options"""
     from .. import synth
-    from ..util import workdir, run_py
-    rng = ctx.rng
+    roles = {}
+    if kind == "single":
+        nsmp = 1
+    elif kind in ("trio",):
+        nsmp = 3
+    elif kind == "multi3":
+        nsmp = 3
+    elif kind == "multi4":
+        nsmp = 4
+    elif kind == "quartet":
+        nsmp = 4
+    else:
+        nsmp = 4 + (1 if rng.random() < 0.3 else 0)
+    # sample names are drawn at random: roles must not follow from names or their sort order
+    names = rng.sample(NAME_POOL, nsmp)
+    selected = None
+    ped_trios = []
+    if kind in ("trio", "pedextra", "pedplus"):
+        fam = names[:3] if kind == "trio" else None
+        if kind != "trio":
+            # the family occupies columns after / before the extra sample(s); its members in random order
+            extra = names[3:]
+            fam = names[:3]
+            order = fam[:]
+            rng.shuffle(order)
+            names = (extra[:1] + order + extra[1:]) if opt["extra_first"] else (order + extra)
+            if len(extra) > 1 and rng.random() < 0.5:
+                names.remove(extra[1])
+                names.insert(rng.randint(1, 3), extra[1])
+        f, m, c = rng.sample(fam, 3)
+        roles = {"father": f, "mother": m, "children": [c]}
+        ped_trios = [(c, f, m)]
+    elif kind == "quartet":
+        f, m, c1, c2 = rng.sample(names, 4)
+        roles = {"father": f, "mother": m, "children": [c1, c2]}
+        ped_trios = [(c1, f, m), (c2, f, m)]
+    elif kind == "multi3":
+        selected = [names[i] for i in opt["subset"]]
+        if rng.random() < 0.5:
+            rng.shuffle(selected)          # the order of --sample options is free
+    elif kind == "multi4":
+        selected = rng.sample(names, rng.randint(1, 3))
+    nchrom = 2 if opt.get("twochrom") else 1
+    small = kind == "quartet"
+    nvars = rng.randint(2, 3) if small else (rng.randint(3, 6) if nchrom == 1 else rng.randint(2, 4))
+    kinds = ("snv",) if rng.random() < 0.5 else ("snv", "ins", "del", "mnp")
+    sc = synth.make_scenario(rng, nchrom=nchrom, nsamples=len(names), nvars=nvars, kinds=kinds, sample_names=names)
+    for chrom in sc.chroms:
+        for ch in roles.get("children", []):
+            sc.haps[ch][chrom] = synth.inherit(rng, sc.haps[roles["father"]][chrom], sc.haps[roles["mother"]][chrom])[0]
+    famset = set([roles.get("father"), roles.get("mother")] + roles.get("children", [])) - {None}
+    # dimensions of the read data: a chromosome / a sample without any read, paired reads, several read groups
+    noreads_chrom = sc.chroms[-1] if (nchrom == 2 and rng.random() < 0.25) else None
+    noreads_sample = rng.choice(names) if (len(names) > 1 and rng.random() < 0.2) else None
+    reads = []
+    for chrom in sc.chroms:
+        for s in names:
+            if chrom == noreads_chrom or s == noreads_sample:
+                continue
+            nr = (1 if small else rng.randint(1, 2)) if s in famset else rng.randint(3, 5)
+            reads += synth.simulate_reads(rng, sc, s, chrom, nr, len_range=(120, 320), name_prefix=f"{s}_{chrom}_",
+                                          qual=rng.choice([10, 20, 30, 40]), paired_fraction=rng.choice([0.0, 0.0, 0.5]))
+    args = dict(reference=None, max_coverage=(8 if small else 6) if famset else rng.choice([3, 4, 6, 15]),
+                nopriors=rng.random() < 0.5,
+                gt_qual_threshold=rng.choice([0, 0, 3, 10, 20, 60, 0.5, 7.5, 100] if kind in ("single", "trio")
+                                             else [0, 0, 0, 3, 3, 10, 0.5]),
+                write_command_line_header=False)
+    if not args["nopriors"]:
+        args["constant"] = rng.choice([0.0, 0.0, 0.1, 3.0])
+        if rng.random() < 0.3:
+            args["prioroutput"] = "prior.vcf"
+    if selected is not None:
+        args["samples"] = selected
+    if ped_trios:
+        args["ped"] = "t.ped"
+        args["recombrate"] = rng.choice([1.26, 50.0, 0.01])
+        if kind == "pedextra":
+            args["use_ped_samples"] = True
+    if kind == "single" and rng.random() < 0.3:
+        args["ignore_read_groups"] = True
+    if rng.random() < 0.2:
+        args["only_snvs"] = True
+    processed = None
+    if nchrom == 2 and rng.random() < 0.6:
+        processed = [rng.choice(sc.chroms)]
+        args["chromosomes"] = processed
+    if kind == "pedextra":
+        genotyped = sorted(famset)
+    else:
+        genotyped = selected if selected is not None else list(names)
+    return dict(kind=kind, names=names, roles=roles, ped_trios=ped_trios, scenario=sc.to_json(), reads=reads,
+                bam_per_sample=(len(names) > 1 and not args.get("ignore_read_groups") and rng.random() < 0.3),
+                rg_per_sample=1 if args.get("ignore_read_groups") else rng.choice([1, 1, 2]),
+                args=args, genotyped=genotyped, processed=processed or list(sc.chroms),
+                noreads_chrom=noreads_chrom, noreads_sample=noreads_sample, variant_kinds=list(kinds))
+
+
+def exec_cli(ctx, spec, d):
+    """write the files of a CLI case into directory d and run `whatshap genotype` (recording driver) there"""
+    from .. import synth
+    from ..util import run_py
+    sc = synth.Scenario.from_json(spec["scenario"])
+    synth.write_fasta(sc, os.path.join(d, "ref.fa"))
+    synth.write_vcf(sc, os.path.join(d, "in.vcf"))
+    bams = []
+    if spec["bam_per_sample"]:
+        for i, s in enumerate(spec["names"]):
+            rs = [r for r in spec["reads"] if r["sample"] == s]
+            if not rs:
+                continue
+            p = os.path.join(d, f"reads{i}.bam")
+            sub = synth.Scenario(sc.ref, sc.variants, [s], sc.haps)
+            synth.write_bam(sub, rs, p, rg_per_sample=spec["rg_per_sample"])
+            bams.append(os.path.basename(p))
+    if not bams:
+        synth.write_bam(sc, spec["reads"], os.path.join(d, "reads.bam"), rg_per_sample=spec["rg_per_sample"])
+        bams = ["reads.bam"]
+    if spec["ped_trios"]:
+        synth.write_ped(os.path.join(d, "t.ped"), [tuple(t) for t in spec["ped_trios"]])
+    args = dict(spec["args"], phase_input_files=bams, variant_file="in.vcf")
+    rc, so, se = run_py(ctx, CLI_DRIVER, stdin=json.dumps(args), cwd=d)
+    return dict(kind=spec["kind"], spec=spec, args=args, rc=rc, stdout=so, stderr=se[-2000:], vcf_samples=spec["names"],
+                genotyped=spec["genotyped"], processed=spec["processed"])
+
+
+def cli_cases(ctx, n):
+    from ..util import workdir
     wd = workdir(ctx)
     out = []
     for k, (kind, opt) in enumerate(cli_plan(ctx, n)):
-        family = None
-        if kind == "single":
-            samples, selected = ["s1"], None
-        elif kind == "trio":
-            samples, selected, family = ["father", "mother", "child"], None, True
-        elif kind == "multi3":
-            samples = ["u1", "u2", "u3"]
-            selected = [samples[i] for i in opt["subset"]]
-        elif kind == "multi4":
-            samples = ["u1", "u2", "u3", "u4"]
-            selected = sorted(rng.sample(samples, rng.randint(1, 3)), key=samples.index)
-        else:
-            fam = ["father", "mother", "child"]
-            rng.shuffle(fam)
-            samples = (["extra"] + fam) if opt["extra_first"] else (fam + ["extra"])
-            if rng.random() < 0.3:
-                samples.insert(rng.randint(1, 3), "other")
-            selected, family = None, True
-        nchrom = 2 if opt.get("twochrom") else 1
-        nvars = rng.randint(3, 6) if nchrom == 1 else rng.randint(2, 4)
-        sc = synth.make_scenario(rng, nchrom=nchrom, nsamples=len(samples), nvars=nvars, kinds=("snv",), sample_names=samples)
-        if family:
-            # the child inherits (no recombination) so that the data are consistent with the pedigree
-            for chrom in sc.chroms:
-                sc.haps["child"][chrom] = synth.inherit(rng, sc.haps["father"][chrom], sc.haps["mother"][chrom])[0]
+        spec = cli_spec(ctx.rng, kind, opt)
         d = os.path.join(wd, f"cli{k}")
         os.makedirs(d)
-        fa, vcf, bam = os.path.join(d, "ref.fa"), os.path.join(d, "in.vcf"), os.path.join(d, "reads.bam")
-        synth.write_fasta(sc, fa)
-        synth.write_vcf(sc, vcf)
-        reads = []
-        for chrom in sc.chroms:
-            for s in samples:
-                nr = rng.randint(1, 2) if (family and s in ("father", "mother", "child")) else rng.randint(3, 5)
-                reads += synth.simulate_reads(rng, sc, s, chrom, nr, len_range=(120, 320), name_prefix=f"{s}_{chrom}_",
-                                              qual=rng.choice([10, 20, 30]))
-        synth.write_bam(sc, reads, bam)
-        args = dict(phase_input_files=[bam], variant_file=vcf, reference=None,
-                    max_coverage=6 if family else rng.choice([3, 4, 6]),
-                    nopriors=rng.random() < 0.5,
-                    gt_qual_threshold=rng.choice([0, 0, 3, 10, 20, 60] if kind in ("single", "trio") else [0, 0, 0, 3, 3, 10]),
-                    write_command_line_header=False)
-        if selected is not None:
-            args["samples"] = selected
-        if family:
-            ped = os.path.join(d, "t.ped")
-            synth.write_ped(ped, [("child", "father", "mother")])
-            args["ped"] = ped
-            args["recombrate"] = rng.choice([1.26, 50.0])
-            if kind == "pedextra":
-                args["use_ped_samples"] = True
-        processed = None
-        if nchrom == 2 and rng.random() < 0.7:
-            processed = [rng.choice(sc.chroms)]
-            args["chromosomes"] = processed
-        if kind == "pedextra":
-            genotyped = ["father", "mother", "child"]
-        else:
-            genotyped = selected if selected is not None else list(samples)
-        rc, so, se = run_py(ctx, CLI_DRIVER, stdin=json.dumps(args), cwd=d)
-        out.append(dict(k=k, kind=kind, args={a: (v if not isinstance(v, str) or not v.startswith(wd) else os.path.basename(v))
-                                              for a, v in args.items()}, rc=rc, stdout=so, stderr=se[-2000:],
-                        vcf_samples=samples, genotyped=genotyped, processed=processed or list(sc.chroms),
-                        scenario=sc.to_json()))
+        out.append(exec_cli(ctx, spec, d))
     return out
 
 
 def check_cli(ctx, n):
-    runs = cli_cases(ctx, n)
+    check_cli_runs(ctx, cli_cases(ctx, n))
+
+
+def cli_tallies(ctx, spec):
+    a = spec["args"]
+    ctx.tally("cli.kind." + spec["kind"])
+    ctx.tally("cli.opt.nopriors=%s" % a["nopriors"])
+    ctx.tally("cli.opt.threshold=%s" % a["gt_qual_threshold"])
+    ctx.tally("cli.opt.max_coverage=%s" % a["max_coverage"])
+    for k in ("constant", "prioroutput", "samples", "use_ped_samples", "ignore_read_groups", "only_snvs", "chromosomes", "recombrate"):
+        if a.get(k):
+            ctx.tally("cli.opt." + k + ("=%s" % a[k] if k in ("constant", "recombrate") else ""))
+    if a.get("samples"):
+        idx = sorted(spec["names"].index(s) for s in a["samples"])
+        ctx.tally("cli.sample-subset=%s/%d" % (",".join(map(str, idx)), len(spec["names"])))
+        if a["samples"] != [spec["names"][i] for i in idx]:
+            ctx.tally("cli.sample-options-not-in-vcf-order")
+    if spec["roles"]:
+        r = spec["roles"]
+        pos = {s: i for i, s in enumerate(spec["names"])}
+        ctx.tally("cli.family-column-order=" + "".join(
+            x for _, x in sorted([(pos[r["father"]], "F"), (pos[r["mother"]], "M")] + [(pos[c], "C") for c in r["children"]]
+                                 + [(pos[s], "x") for s in spec["names"] if s not in spec["genotyped"] or
+                                    (s not in [r["father"], r["mother"]] + r["children"])])))
+        if sorted(spec["names"]) != spec["names"]:
+            ctx.tally("cli.names-not-sorted")
+    ctx.tally("cli.bam-files=%s" % ("per-sample" if spec["bam_per_sample"] else "one"))
+    ctx.tally("cli.read-groups-per-sample=%d" % spec["rg_per_sample"])
+    ctx.tally("cli.chromosomes=%d" % len(spec["scenario"]["ref"]))
+    if spec["noreads_chrom"]:
+        ctx.tally("cli.chromosome-without-reads")
+    if spec["noreads_sample"]:
+        ctx.tally("cli.sample-without-reads" + ("(genotyped)" if spec["noreads_sample"] in spec["genotyped"] else "(unselected)"))
+    ctx.tally("cli.variant-kinds=" + "+".join(spec["variant_kinds"]))
+    if any("mate_start" in r for r in spec["reads"]):
+        ctx.tally("cli.paired-reads")
+
+
+def check_cli_runs(ctx, runs):
     items, meta = [], []
     for run in runs:
         ctx.tally("cli.runs")
+        cli_tallies(ctx, run["spec"])
         if run["rc"] != 0:
             ctx.violation("cli:crash", f"whatshap genotype failed on synthetic data: {run['stderr'][-600:]}",
-                          {"kind": "cli", "args": run["args"], "scenario": run["scenario"]})
+                          {"kind": "cli", "spec": run["spec"]})
             continue
         try:
             data = json.loads(run["stdout"].splitlines()[-1])
         except Exception:
             ctx.violation("cli:crash", f"no result from whatshap genotype: {run['stdout'][-300:]} {run['stderr'][-300:]}",
-                          {"kind": "cli", "args": run["args"], "scenario": run["scenario"]})
+                          {"kind": "cli", "spec": run["spec"]})
             continue
         if "vcf" not in data:
-            ctx.violation("cli:crash", f"whatshap genotype exits: {data}", {"kind": "cli", "args": run["args"]})
+            ctx.violation("cli:crash", f"whatshap genotype exits: {data}", {"kind": "cli", "spec": run["spec"]})
             continue
         calls = parse_vcf_calls(data["vcf"])
         thr = Fraction(1.0 - 10 ** (-run["args"]["gt_qual_threshold"] / 10.0))
@@ -626,7 +738,7 @@ def check_cli(ctx, n):
             if inst is None:
                 ctx.tally("cli.skipped-too-large")
                 continue
-            chrom = entry.get("chrom") or list(run["scenario"]["ref"])[0]
+            chrom = entry.get("chrom") or list(run["spec"]["scenario"]["ref"])[0]
             cl = []
             for ind, s in enumerate(order):
                 for c, p in enumerate(entry["positions"]):
@@ -645,12 +757,22 @@ def check_cli(ctx, n):
                 meta.append((run, inst, cl, fn))
         # writer level: EVERY call of EVERY sample of every record on a processed chromosome
         wcalls = []
-        tabs = {t["chrom"]: t for t in data.get("tables", [])}
-        for chrom in run["processed"]:
+        tabs, ptabs = {}, {}
+        for t in data.get("tables", []):
+            if run["args"].get("prioroutput") and t["chrom"] not in ptabs:
+                ptabs[t["chrom"]] = t          # the prior writer is called first for every chromosome
+            else:
+                tabs[t["chrom"]] = t
+        outputs = [(calls, tabs, "")]
+        if run["args"].get("prioroutput"):
+            outputs.append((parse_vcf_calls(data.get("prior_vcf", "")), ptabs, "prior:"))
+        for calls_x, tabs_x, pfx in outputs:
+          for chrom in run["processed"]:
+            calls, tabs = calls_x, tabs_x
             t = tabs.get(chrom)
             if t is None:
                 ctx.violation("cli:chromosome-not-written", f"requested chromosome {chrom} was not written: args={run['args']}",
-                              {"kind": "cli", "args": run["args"], "scenario": run["scenario"]})
+                              {"kind": "cli", "spec": run["spec"]})
                 continue
             for vi, p in enumerate(t["positions"]):
                 for s in run["vcf_samples"]:
@@ -658,10 +780,12 @@ def check_cli(ctx, n):
                     tl = t["lik"].get(s)
                     l = None if tl is None or tl[vi] is None else [G.hex_to_fraction(h) for h in tl[vi]]
                     wcalls.append((s in run["genotyped"], gt_index(gt), None if gq in (None, ".") else int(gq),
-                                   gl_values(gl), l, (chrom, p, s, gt, gq, gl)))
+                                   gl_values(gl), l, (pfx + chrom, p, s, gt, gq, gl)))
+        calls = outputs[0][0]
         ctx.tally("cli.wcalls", len(wcalls))
         ctx.tally("cli.wcalls.unselected", sum(1 for w in wcalls if not w[0]))
-        ctx.tally("cli.kind." + run.get("kind", "?"))
+        ctx.tally("cli.wcalls.called", sum(1 for w in wcalls if w[1] is not None))
+        ctx.tally("cli.wcalls.prior-output", sum(1 for w in wcalls if w[5][0].startswith("prior:")))
         if wcalls:
             wterm = wcli_term(thr, wcalls)
             ctx.count(("cliw", json.dumps(run["args"], sort_keys=True), tuple(w[5] for w in wcalls)),
@@ -681,12 +805,12 @@ def check_cli(ctx, n):
             sig = "cli:unselected-sample-called" if any(not w[0] for w in bad) else "cli:gt-gl-gq"
             ctx.violation(sig, f"output VCF violates the GT/GL/GQ rules (every sample of every record): args={run['args']} "
                                f"samples={run['vcf_samples']} genotyped={run['genotyped']} offending calls={[w[5] for w in bad][:6]}",
-                          {"kind": "cli", "args": run["args"], "scenario": run["scenario"]})
+                          {"kind": "cli", "spec": run["spec"]})
         elif fn == "CLIW_L2":
             l2bad.append({"args": run["args"], "writer_calls": [w[5] for w in find_bad_wcalls(run, cl, l2=True)][:10]})
         elif fn == "CLI_L1":
             ctx.violation("cli:gt-gl-gq", f"output VCF violates the GT/GL/GQ rules: args={run['args']} calls={[(c, i, g, q, [float(x) for x in p]) for c, i, g, q, p in cl]}",
-                          {"kind": "cli", "args": run["args"], "scenario": run["scenario"]})
+                          {"kind": "cli", "spec": run["spec"]})
         else:
             l2bad.append({"args": run["args"], "inst": inst, "calls": [(c, i, g, q, [float(x) for x in p]) for c, i, g, q, p in cl]})
     if l2bad:
@@ -791,5 +915,10 @@ def replay(ctx, data):
         inst = data["inst"]
         recs = check_core(ctx, [("replay", inst, len(inst["reads"]) <= 3 and inst["nind"] == 1)], tag="replay")
         report_core(ctx, recs, search=False)
+    elif data.get("kind") == "cli" and "spec" in data:
+        from ..util import workdir
+        d = os.path.join(workdir(ctx), "replay")
+        os.makedirs(d)
+        check_cli_runs(ctx, [exec_cli(ctx, data["spec"], d)])
     else:
         run(ctx)
